@@ -241,7 +241,8 @@ func (h *Host) handleBeforeMessageStored(msg event.InboundMessage) *event.Inboun
 
 // Common preparation for calling Lua functions.
 func (h *Host) prepareInbucketFuncCall(funcName string) (logger zerolog.Logger, ls *lua.LState, ib *Inbucket, ok bool) {
-	logger = h.logContext.Str("event", funcName).Logger()
+	// Derive from a copy: appending to the shared context from concurrent calls is a data race.
+	logger = h.logContext.Logger().With().Str("event", funcName).Logger()
 
 	ls, err := h.pool.getState()
 	if err != nil {
